@@ -317,6 +317,16 @@ class C17(core.Check):
                 c = self.metamorphic(rng) if i % 3 else self.continuation(rng)
             if c:
                 yield c
+        # three levels of nesting, found by a seed-independent search
+        found = 0
+        for k in range(400):
+            if found >= 5:
+                break
+            rng = core.rng_for(0, self.pid, 'nest3', k)
+            c = self.metamorphic(rng, 1.0, 0)
+            if c and 'nesting:3' in c['tags']:
+                found += 1
+                yield c
         yield from self.mute_depth_cases()
         negs = ['included-twice', 'transitively-twice', 'self-include', 'missing-file', 'ambiguous-name']
         for i in range(25 if tier == 'quick' else 100):
